@@ -85,6 +85,39 @@ func storageKind(key ssa.Value) string {
 		}
 		return "prefix:" + p
 	}
+	// a key-building helper of the ledger package (accountDBKey(addr) = compositeKey(accountKey, addr)): the kind of
+	// the key every return of the helper builds; a suffix that is the helper's parameter is looked up at the call
+	if g := core.StaticCallee(c); g != nil && len(g.Blocks) > 0 && strings.HasSuffix(core.PkgOf(g), "internal/ledger") && g != c.Parent() {
+		kind := ""
+		for _, ret := range core.Returns(g) {
+			if len(ret.Results) != 1 {
+				return ""
+			}
+			k := storageKind(ret.Results[0])
+			if k == "journal" {
+				// compositeKey(journalKey, which) with which handed in by the caller
+				if ic, ok := core.Strip(ret.Results[0]).(*ssa.Call); ok && len(ic.Call.Args) > 1 {
+					if pi := paramIndex(g, core.Strip(ic.Call.Args[1])); pi >= 0 && pi < len(c.Call.Args) {
+						if u, ok := core.Strip(c.Call.Args[pi]).(*ssa.UnOp); ok {
+							if gl, ok := u.X.(*ssa.Global); ok {
+								if gl.Name() == "maxHeightStr" {
+									k = "journal-max"
+								}
+								if gl.Name() == "minHeightStr" {
+									k = "journal-min"
+								}
+							}
+						}
+					}
+				}
+			}
+			if k == "" || (kind != "" && kind != k) {
+				return ""
+			}
+			kind = k
+		}
+		return kind
+	}
 	return ""
 }
 
@@ -149,21 +182,7 @@ func batchOps(fn *ssa.Function) map[string]map[string][]ssa.Instruction {
 					if stored == nil {
 						continue
 					}
-					fld := fa.Field
-					recvPar := m.Params[0]
-					isCtxBatch := func(rv ssa.Value) bool {
-						_, _, base, ok := core.FieldOf(rv)
-						if !ok || core.Strip(base) != ssa.Value(recvPar) {
-							return false
-						}
-						u, isU := rv.(*ssa.UnOp)
-						if !isU {
-							return false
-						}
-						f2, isF2 := u.X.(*ssa.FieldAddr)
-						return isF2 && f2.Field == fld
-					}
-					for _, ko := range helperBatchWritesPred(m, nil, isCtxBatch, 0, map[*ssa.Function]bool{fn: true}, nil) {
+					for _, ko := range helperBatchWritesPred(m, nil, &ctxBatch{m.Params[0], fa.Field}, 0, map[*ssa.Function]bool{fn: true}, nil) {
 						batchOfSite[call] = stored
 						add(ko[0], ko[1], call)
 					}
@@ -191,17 +210,7 @@ func batchOps(fn *ssa.Function) map[string]map[string][]ssa.Instruction {
 						if stored == nil {
 							continue
 						}
-						fld := fa.Field
-						ctxPar := g.Params[ai]
-						isCtxBatch := func(rv ssa.Value) bool {
-							u, isU := rv.(*ssa.UnOp)
-							if !isU {
-								return false
-							}
-							f2, isF2 := u.X.(*ssa.FieldAddr)
-							return isF2 && f2.Field == fld && core.Strip(f2.X) == ssa.Value(ctxPar)
-						}
-						for _, ko := range helperBatchWritesPred(g, nil, isCtxBatch, 0, map[*ssa.Function]bool{fn: true}, nil) {
+						for _, ko := range helperBatchWritesPred(g, nil, &ctxBatch{g.Params[ai], fa.Field}, 0, map[*ssa.Function]bool{fn: true}, nil) {
 							batchOfSite[call] = stored
 							add(ko[0], ko[1], call)
 						}
@@ -250,7 +259,34 @@ func helperBatchWritesEnv(g *ssa.Function, p *ssa.Parameter, depth int, seen map
 
 // helperBatchWritesPred: the batch is identified by parameter p or, when p is nil, by isBatch (a field of a context
 // struct the function receives, see batchOps).
-func helperBatchWritesPred(g *ssa.Function, p *ssa.Parameter, isBatch func(ssa.Value) bool, depth int, seen map[*ssa.Function]bool, kinds map[int]string) [][2]string {
+// ctxBatch: the batch is field fld of the context struct that the function receives as parameter par.
+type ctxBatch struct {
+	par *ssa.Parameter
+	fld int
+}
+
+func (cb *ctxBatch) isCtx(v ssa.Value) bool {
+	v = core.Strip(v)
+	if v == ssa.Value(cb.par) {
+		return true
+	}
+	if u, ok := v.(*ssa.UnOp); ok {
+		v = u.X
+	}
+	fv, ok := v.(*ssa.FreeVar)
+	return ok && fv.Name() == cb.par.Name()
+}
+
+func (cb *ctxBatch) is(rv ssa.Value) bool {
+	u, isU := rv.(*ssa.UnOp)
+	if !isU {
+		return false
+	}
+	f2, isF2 := u.X.(*ssa.FieldAddr)
+	return isF2 && f2.Field == cb.fld && cb.isCtx(f2.X)
+}
+
+func helperBatchWritesPred(g *ssa.Function, p *ssa.Parameter, ctx *ctxBatch, depth int, seen map[*ssa.Function]bool, kinds map[int]string) [][2]string {
 	if depth > 3 {
 		return nil
 	}
@@ -266,7 +302,7 @@ func helperBatchWritesPred(g *ssa.Function, p *ssa.Parameter, isBatch func(ssa.V
 			return false
 		}
 		if p == nil {
-			return isBatch != nil && isBatch(rv)
+			return ctx != nil && ctx.is(rv)
 		}
 		if core.Strip(rv) == ssa.Value(p) || core.VarIdentity(rv) == ssa.Value(p) || core.Mentions(rv, func(v ssa.Value) bool { return v == ssa.Value(p) }) {
 			return true
@@ -301,6 +337,14 @@ func helperBatchWritesPred(g *ssa.Function, p *ssa.Parameter, isBatch func(ssa.V
 			h := core.StaticCallee(gc)
 			if h == nil || len(h.Blocks) == 0 || core.PkgOf(h) != ledgerPkg {
 				continue
+			}
+			// the context struct handed on (st.addRecord(account) inside st.add)
+			if ctx != nil && h != g {
+				for ai, a := range gc.Common().Args {
+					if ai < len(h.Params) && ctx.isCtx(a) {
+						out = append(out, helperBatchWritesPred(h, nil, &ctxBatch{h.Params[ai], ctx.fld}, depth+1, seen, nil)...)
+					}
+				}
 			}
 			for ai, a := range gc.Common().Args {
 				if ai < len(h.Params) && strings.HasSuffix(a.Type().String(), "storage.Batch") && isP(a) {
@@ -356,6 +400,7 @@ func C12(c *Ctx) {
 	r.Rule("R12.6", "one journal entry is undone as a whole: every path through revertJournal reaches the loop over PrevStates and the test of CodeChanged - an early return after the account record was handled would leave the storage keys and the code that the block wrote in the database.")
 	r.Rule("R12.8", "the journal keeps the keys it records: the block journal is stored as JSON and PrevStates is keyed by the raw state key (EVM storage slots are 32 arbitrary bytes); encoding/json replaces invalid UTF-8 in map keys, so the journal entry type owns its JSON form: it has MarshalJSON and UnmarshalJSON, MarshalJSON puts a key into a string-keyed map unencoded only behind utf8.ValidString(key) and hex-encodes the others, UnmarshalJSON hex-decodes them back. Otherwise a rollback (also the start-up rollback after a crash, C11) restores the previous value under a different key and the slot keeps the rolled-back block's value.")
 	c.c12JournalKeys("R12.8")
+	c.c12ReadUnderBatch()
 	r.Rule("R12.4", "root chain continues: after reverting, every successful path stores prevJnlHash (re-read from the target height's journal) and maxJnlHeight; a value other than that journal's root is stored only behind height == 0 or is overwritten before every return; the rollback is refused exactly when minJnlHeight > height (any spelling of that comparison), so the target's journal record exists whenever it is read.")
 	r.Rule("R12.7", "the journal records the real previous balance (shared with C10 R10.4): "+balanceInPlaceText)
 	c.balanceInPlace("R12.7")
